@@ -239,8 +239,23 @@ def h_hexdisplay() -> bool:
     if len(texts) >= 2:
         conds.append(texts[0] == "-------------- PEL Begin  ----------------")
         conds.append(texts[-1] == "-------------- PEL End    ----------------")
-        back = hd.parse(texts[1:-1])
-        conds.append(len(back) == L)
-        if len(back) == L:
-            conds.append(bytes_eq(back, data))
+        body = texts[1:-1]
+        if L > 1000:
+            # large file: the lines that do not contain the symbolic byte are concrete - parse them at
+            # CPython speed, only the line with the symbolic byte symbolically
+            nl = (L + 15) // 16
+            conds.append(len(body) == nl)
+            if len(body) == nl:
+                k = p // 16
+                head = untraced(hd.parse, [str(x) for x in body[:k]])
+                tail = untraced(hd.parse, [str(x) for x in body[k + 1:]])
+                mid = hd.parse([body[k]])
+                conds += [bytes(head) == FILL[:16 * k], bytes(tail) == FILL[16 * (k + 1):L], len(mid) == min(16, L - 16 * k)]
+                if len(mid) == min(16, L - 16 * k):
+                    conds.append(bytes_eq(mid, [data[16 * k + i] for i in range(len(mid))]))
+        else:
+            back = hd.parse(body)
+            conds.append(len(back) == L)
+            if len(back) == L:
+                conds.append(bytes_eq(back, data))
     return verdict(sym_all(conds), obs={"printed": texts})
